@@ -53,9 +53,29 @@ NEVER_RISES = {
 }
 
 
+def _scaffolding(an: Analysis, qn: str) -> bool:
+    """a private intermediate base class: named with a leading underscore, subclassed, and
+    never instantiated by name anywhere in the package (only its subclasses exist as
+    objects, and each of them is judged as the receiver of what it inherits)"""
+    name = qn.rsplit('.', 1)[-1]
+    if not name.startswith('_') or name.startswith('__') or not an.p.subclasses(qn):
+        return False
+    for module in an.p.modules.values():
+        for node in ast.walk(module.tree):
+            if isinstance(node, ast.Call) and isinstance(node.func, (ast.Name, ast.Attribute)) \
+                    and ast.unparse(node.func).split('.')[-1] == name:
+                try:
+                    binding = an.p.resolve_dotted(module, node.func)
+                except Exception:
+                    binding = None
+                if binding and binding[0] == 'class' and binding[1] == qn:
+                    return False
+    return True
+
+
 def condition_classes(an: Analysis):
     return sorted(qn for qn in [CONDITION] + an.p.subclasses(CONDITION)
-                  if not qn.startswith('usim.py.'))
+                  if not qn.startswith('usim.py.') and not _scaffolding(an, qn))
 
 
 def run(check, an: Analysis):
@@ -655,13 +675,59 @@ def _splice_starred(expr):
     return Sub().visit(copy.deepcopy(expr))
 
 
-def returned_forms(an: Analysis, callee: Callee):
+def _hook_results(an: Analysis, callee: Callee, expr, except_classes=()):
+    """``self.hook()`` -- a parameterless plain method of the receiver that only returns one
+    expression -- replaced by that expression, when every class the receiver stands for
+    (its subclasses, but for ``except_classes`` and theirs, which are judged on their own)
+    has the same definition of the hook"""
+    import copy
+    if callee.recv is None:
+        return expr
+
+    def definition(cls_qn, name):
+        method = an.p.find_method(cls_qn, name)
+        if method is None or method.kind != 'sync' or len(method.node.args.args) != 1 or \
+                method.node.args.args[0].arg != 'self':
+            return None
+        stmts = [s for s in method.node.body
+                 if not (isinstance(s, ast.Expr) and isinstance(s.value, ast.Constant))]
+        if len(stmts) != 1 or not isinstance(stmts[0], ast.Return) or stmts[0].value is None:
+            return None
+        return method, stmts[0].value
+
+    excluded = set()
+    for qn in except_classes:
+        if qn != callee.recv:
+            excluded.add(qn)
+            excluded.update(an.p.subclasses(qn))
+
+    class Sub(ast.NodeTransformer):
+        def visit_Call(self, node):
+            node = self.generic_visit(node)
+            if node.args or node.keywords or not isinstance(node.func, ast.Attribute) or \
+                    not isinstance(node.func.value, ast.Name) or node.func.value.id != 'self':
+                return node
+            found = definition(callee.recv, node.func.attr)
+            if found is None:
+                return node
+            for qn in an.p.subclasses(callee.recv):
+                if qn in excluded:
+                    continue
+                other = definition(qn, node.func.attr)
+                if other is None or other[0] is not found[0]:
+                    return node
+            return copy.deepcopy(found[1])
+    return Sub().visit(copy.deepcopy(expr))
+
+
+def returned_forms(an: Analysis, callee: Callee, except_classes=()):
     """[(path atoms, expanded text of the returned value, expanded node)] per return path"""
     result = []
     for path in an.paths(callee):
         if path.kind != 'return' or path.outcome[1] is None:
             continue
-        node = _splice_starred(rules.value_expr(path, len(path.events), path.outcome[1]))
+        node = rules.value_expr(path, len(path.events), path.outcome[1])
+        node = _splice_starred(_hook_results(an, callee, node, except_classes))
         result.append((rules.path_atoms(path), rules.normalise_state_aliases(
             ast.unparse(node)), node, path))
     return result
@@ -894,7 +960,8 @@ def _check_algebra(check, an: Analysis, classes):
         method = an.method(qn, name)
         param = method.node.args.args[1].arg
         mine = '*self._children' if qn != CONDITION else 'self'
-        forms = returned_forms(an, an.callee(qn, name))
+        forms = returned_forms(an, an.callee(qn, name),
+                               (ALL,) if cls_name == 'All' else (ANY,))
         ok, seen = bool(forms), set()
         for atoms, text, _node, _path in forms:
             same = atoms.get(('truth', 'isinstance(%s, %s)' % (param, cls_name)))
